@@ -64,6 +64,14 @@ def run(ck: Check, only=None):
             elif t.before + b"".join(t.parts) + t.after != data or out != data or any(not p for p in t.parts):
                 ck.violation(f"[symbol sets={sets}] {data!r}: before+atoms+after = {t.before + b''.join(t.parts) + t.after!r}, dump {out!r}",
                              {"atom": "symbol", "data": data.hex(), "cut_before": sets[0].hex(), "cut_after": sets[1].hex()})
+    def direct(atom, data):
+        line, t, out = impl_load(atom, data)
+        ck.count("repetition-" + atom)
+        ck.nontrivial(("rep", atom, data))
+        oracle_roundtrip(ck, atom, data, line, t, out)
+    for atom, data in repetition_sweeps(quick):
+        if not only or atom in only:
+            direct(atom, data)
     reload_same_object(ck)
     from scale import big_dump_identity, big_load_identity
     big_dump_identity(ck)
@@ -78,6 +86,27 @@ def run(ck: Check, only=None):
         "CPython's utf-8/surrogateescape decode + str.splitlines and the re module are modelled "
         "(byte-level PyLines.v; hand-readable scanners for each regular expression) and validated "
         "by this exhaustive comparison, not verified"], extra={"exhaustive": True})
+
+
+def repetition_sweeps(quick):
+    """one fragment repeated k times for EVERY k up to a few hundred (counters, give-up limits, windows and recursion
+    guards sit at round numbers nobody would pick by hand), behind each opener and in front of each tail"""
+    K = 140 if quick else 330
+    plans = {"jsstr": ([b'"', b"'", b"x = '"], [b'\\"', b"\\'", b'"', b"'", b"\\\\", b"a", b"\\u{1}", b"'\n\""], [b"", b"\n", b'"', b"x"]),
+             "attrs": ([b"<a", b"<a b", b""], [b" b=c", b' d="e"', b" f", b"<", b">", b"='"], [b"", b">", b"\n", b"'"]),
+             "symbol": ([b"", b"x"], [b"{", b"};", b";\n", b"]["], [b"", b"\n", b"y"]),
+             "line": ([b"", b"DDBEGIN\n"], [b"\n", b"\r", b"a\xc2\x85", b"\r\n"], [b"", b"DDEND\n", b"x"]),
+             "char": ([b"", b"DDBEGIN\n"], [b"\n", b"a", b"\r\n"], [b"", b"\nDDEND\n", b"DDEND"])}
+    for atom, (openers, frags, tails) in plans.items():
+        for oi, o in enumerate(openers):
+            for fi, f in enumerate(frags):
+                for ti, t in enumerate(tails):
+                    if quick and (oi + fi + ti) % 2 and not (oi == 0 and ti == 0):
+                        continue
+                    for k in range(0, K):
+                        if atom in ("line", "char") and o and b"DDEND" not in t:
+                            continue
+                        yield atom, o + f * k + t
 
 
 def reload_same_object(ck):
